@@ -581,3 +581,99 @@ func SpecSnap(t *Tree, withSum bool) Snap {
 	}
 	return s
 }
+
+// CopyTree copies the tree under src to dst (which must not exist) as a
+// process kill at this instant would leave it: every entry with its type,
+// content, permissions, times and owner, including entries not listed
+// anywhere (temporary files). Sockets become fresh sockets.
+func CopyTree(src, dst string) error {
+	type dirfix struct {
+		path string
+		st   unix.Stat_t
+	}
+	var dirs []dirfix
+	fixMeta := func(p string, st *unix.Stat_t, link bool) error {
+		if err := os.Lchown(p, int(st.Uid), int(st.Gid)); err != nil {
+			return err
+		}
+		if !link {
+			if err := unix.Chmod(p, st.Mode&0o7777); err != nil {
+				return err
+			}
+		}
+		ts := []unix.Timespec{st.Atim, st.Mtim}
+		return unix.UtimesNanoAt(unix.AT_FDCWD, p, ts, unix.AT_SYMLINK_NOFOLLOW)
+	}
+	var walk func(rel string) error
+	walk = func(rel string) error {
+		sp, dp := filepath.Join(src, rel), filepath.Join(dst, rel)
+		var st unix.Stat_t
+		if err := unix.Lstat(sp, &st); err != nil {
+			return err
+		}
+		switch st.Mode & unix.S_IFMT {
+		case unix.S_IFDIR:
+			if err := os.Mkdir(dp, 0o700); err != nil {
+				return err
+			}
+			f, err := os.Open(sp)
+			if err != nil {
+				return err
+			}
+			names, err := f.Readdirnames(-1)
+			f.Close()
+			if err != nil {
+				return err
+			}
+			sort.Strings(names)
+			for _, n := range names {
+				if err := walk(filepath.Join(rel, n)); err != nil {
+					return err
+				}
+			}
+			dirs = append(dirs, dirfix{dp, st})
+			return nil
+		case unix.S_IFREG:
+			b, err := os.ReadFile(sp)
+			if err != nil {
+				return err
+			}
+			if err := os.WriteFile(dp, b, 0o600); err != nil {
+				return err
+			}
+		case unix.S_IFLNK:
+			t, err := os.Readlink(sp)
+			if err != nil {
+				return err
+			}
+			if err := os.Symlink(t, dp); err != nil {
+				return err
+			}
+			return fixMeta(dp, &st, true)
+		case unix.S_IFIFO:
+			if err := unix.Mkfifo(dp, 0o600); err != nil {
+				return err
+			}
+		case unix.S_IFSOCK:
+			if err := mksock(dp); err != nil {
+				return err
+			}
+		case unix.S_IFCHR, unix.S_IFBLK:
+			if err := unix.Mknod(dp, st.Mode&unix.S_IFMT|0o600, int(st.Rdev)); err != nil {
+				return err
+			}
+		default:
+			return fmt.Errorf("fstree: CopyTree: unknown type %o at %q", st.Mode, sp)
+		}
+		return fixMeta(dp, &st, false)
+	}
+	if err := walk(""); err != nil {
+		return err
+	}
+	for i := range dirs {
+		if err := fixMeta(dirs[i].path, &dirs[i].st, false); err != nil {
+			return err
+		}
+	}
+	return nil
+}
